@@ -158,6 +158,15 @@ def build_corpus(tier):
     ws.append(W("must_reject", "auto v = tainted<int*, M<@N>>::internal_factory(vb_gp); (void)v;", "tainted<int*>::internal_factory(raw)", group="private"))
     ws.append(W("must_reject", "auto v = %s.UNSAFE_unverified(); (void)v;" % lv("tainted_opaque", "int"), "tainted_opaque<int>.UNSAFE_unverified()", group="private"))
     ws.append(W("must_reject", "tainted_volatile<int, M<@N>> v; (void)v;", "constructing a tainted_volatile", group="private"))
+    # ---- callback arguments originate in the sandbox: a callback can only be registered if it receives them wrapped
+    reg = "auto c = vb_lv<SB<@N>>().register_callback(vb_cb@N); (void)c;"
+    cbd = lambda ret, params: "static %s vb_cb@N(%s);" % (ret, params)
+    TI_ = "tainted<int, M<@N>>"
+    for params, what in (("SB<@N>&, int a", "a plain int"), ("SB<@N>&, int* a", "a plain pointer"), ("SB<@N>&, " + TI_ + " a, const char* b", "a plain pointer next to a tainted parameter"),
+                         ("SB<@N>&, " + TI_ + " a, long b", "a plain long next to a tainted parameter"), ("SB<@N>&, VbW a", "a plain struct"), ("SB<@N>&, int (*a)(int)", "a plain function pointer"),
+                         ("SB<@N>&, double a", "a plain double"), ("SB<@N>&, int** a", "a plain pointer to pointer")):
+        ws.append(W("must_reject", reg, "callback argument delivered as %s" % what, pre=cbd(TI_, params), group="context"))
+    ws.append(W("must_accept", reg, "control: callback with tainted parameters registers", pre=cbd(TI_, "SB<@N>&, " + TI_ + " a, tainted<int*, M<@N>> b"), group="control"))
     ws.append(W("must_reject", "tainted_volatile<int, M<@N>> v = %s; (void)v;" % lv("tainted_volatile", "int"), "copying a tainted_volatile", group="private"))
     # ---- controls: the named unwrappers work and give the plain type
     for T in ["int", "long", "bool", "double", "int*", "VbW"]:
